@@ -30,13 +30,16 @@ PATS = ["x = 1", "_a_ = _a_ + _b_", "_a_ = _b_ + _a_", "___ = ___ + 2", "print(_
         "_x_ = 0", "_x_ = ''", "_x_ = False", "range(0, ___)", "_x_ = ___\n_x_ = 0", "_a_ = 1\n_a_ = 2",
         "x = 1.0", "x = True", "_a_ = ___\n_b_ = ___\n_c_ = _a_", "print(__e__, __e__)", "__e__ < __e__",
         "_a_ = ___\n_f_(_a_)", "_a_ = _b_\n_b_ = _a_", "___ + ___ + ___", "_x_ = [___]", "_x_ = {'a': ___}",
+        "_a_._m_(___)\n_b_._m_(___)", "_a_._m_(___)\n_a_._k_(___)", "___._m_(_x_)", "_a_._m_(_b_._m_(___))",
+        "_c_ = _o_._m_\n_d_ = _o_._m_", "_f_(___)\n_f_(___)", "_f_(_f_(___))",
         "_x_ * _x_", "_x_ + _x_", "(_v_ + 1) + _v_", "_x_ * _y_", "_a_ = _b_ * _b_", "print(_x_ + 1, _x_ + 1)", "_x_ < _x_"]
 STM = ["x = 1", "y = x + 2", "print(x)", "total = total + n", "items.append(x)", "for i in items:\n    total = total + i",
        "if x > 2:\n    y = 1\nelse:\n    y = 2", "while x < 10:\n    x = x + 1", "def f(a, b):\n    return a * b",
        "z = f(x, 3)", "w = items[0]", "q = [x, y, 1]", "s = x < y", "y = 2 * x", "y = x - 2", "n = n + total",
        "print(y, x)", "a = 1", "b = 0", "total = 5", "name = 'Ada'", "for i in range(1, 10):\n    print(i)", "flag = True",
        "y = 1", "z = f(y)", "x = x < x", "q = [y]", "r = {'a': x}", "x = 1.0", "print(x + 1, x + 1)",
-       "area = width * height", "t = (a + 1) + b", "sq = side * side", "d = x + x", "print(a + 1, b + 1)"]
+       "items.remove(x)", "names.append(y)", "c = items.count", "d = items.index", "k = items.index(names.count(x))",
+       "print(len(items))", "area = width * height", "t = (a + 1) + b", "sq = side * side", "d = x + x", "print(a + 1, b + 1)"]
 
 
 def _setup():
@@ -214,9 +217,91 @@ def make_ordered(max_prog):
     return body
 
 
+SUB_PROG = ["w = items[0]", "z = f(x, 3)", "y = x + 2", "print(x + 1, x + 1)", "t = (a + 1) + b",
+            "k = items.index(names.count(x))", "v = report['Station']['City']", "y = x", "m = grid[i][j + 1]",
+            "print(f(x) + 1, y)", "x = y + 2"]
+SUB_OUTER = ["_t_ = __e__", "print(__e__, ___)", "_t_ = _f_(__e__, ___)", "_t_ = __e__ + ___", "_v_ = __e__[___]",
+             "_v_ = __e__\n_w_ = ___"]
+SUB_INNER = ["_l_[__e__]", "__e__ + 1", "_v_ + ___", "___[___]", "_f_(__e__)", "_t_", "__e__", "_v_", "__e__[___]",
+             "_g_(___)", "__k__ + __e__"]
+
+
+def make_submatch():
+    """The secondary entry points: a pattern matched *below a node bound by an earlier match* (CaitNode.find_matches,
+    which continues from that match by default) and find_matches(..., use_previous=match).  Every returned sub-match
+    must itself be a genuine embedding of the sub-pattern at its root, with its own bindings, and must agree with the
+    earlier match on every _var_ name they share."""
+    def body(ctx):
+        n = ctx.choose(2, 'n') + 1
+        code = "\n".join(SUB_PROG[ctx.choose(len(SUB_PROG), 's%d' % i)] for i in range(n)) + "\n"
+        outer = SUB_OUTER[ctx.choose(len(SUB_OUTER), 'outer')]
+        inner = SUB_INNER[ctx.choose(len(SUB_INNER), 'inner')]
+        route = ('node.find_matches', 'find_matches(use_previous=)', 'node.find_matches(use_previous=False)')[ctx.choose(3, 'route')]
+        ctx.observe('|'.join((code, outer, inner, route)))
+        ctx.set_sample({'program': code, 'outer': outer, 'inner': inner, 'route': route})
+        cmds.clear_report()
+        cmds.contextualize_report(code)
+        ctx.step('find_matches(outer)')
+        try:
+            ms = find_matches(outer)
+        except Exception as e:
+            ctx.fail({'symptom': 'find_matches raised', 'exception': type(e).__name__}, program=code, pattern=outer)
+            return
+        validate(ctx, code, outer, ms, 'sub-outer')
+        total = 0
+        for m in ms:
+            prev_vars = {k: v.id for k, v in m.symbol_table.items()}
+            prev_dump = {k: ast.dump(v.astNode) for k, v in m.exp_table.items()}
+            node = m['__e__'] if '__e__' in m.exp_table else None     # the documented access path (it ties the node to its match)
+            ctx.step(route)
+            try:
+                if route == 'node.find_matches':
+                    if node is None:
+                        continue
+                    subs = node.find_matches(inner)
+                elif route == 'node.find_matches(use_previous=False)':
+                    if node is None:
+                        continue
+                    subs = node.find_matches(inner, use_previous=False)
+                else:
+                    subs = find_matches(inner, use_previous=m)
+            except Exception as e:
+                ctx.fail({'symptom': 'sub-match raised', 'exception': type(e).__name__, 'route': route}, program=code,
+                         outer=outer, inner=inner, message=str(e)[:200])
+                continue
+            total += len(subs)
+            before = len(ctx.fails)
+            validate(ctx, code, inner, subs, 'sub-inner')
+            for sig, det in ctx.fails[before:]:
+                sig['route'] = route
+                det['outer'] = outer
+            for m2 in subs:
+                if route.endswith('False)'):
+                    continue
+                for k, v in m2.symbol_table.items():
+                    if k in prev_vars and prev_vars[k] != v.id and k in [nd.id for nd in ast.walk(ast.parse(inner)) if isinstance(nd, ast.Name)]:
+                        ctx.fail({'symptom': 'sub-match binds a shared _var_ differently from the match it continues',
+                                  'route': route}, program=code, outer=outer, inner=inner, name=k, earlier=prev_vars[k], now=v.id)
+                if node is not None and route == 'node.find_matches':
+                    inside = {id(x) for x in ast.walk(node.astNode)}
+                    if id(m2.match_root.astNode) not in inside:
+                        ctx.fail({'symptom': 'sub-match is rooted outside the node it was searched in', 'route': route},
+                                 program=code, outer=outer, inner=inner)
+            # the earlier match must not be modified by continuing from it
+            if {k: v.id for k, v in m.symbol_table.items()} != prev_vars or \
+                    {k: ast.dump(v.astNode) for k, v in m.exp_table.items()} != prev_dump:
+                ctx.fail({'symptom': 'continuing from a match changed that match', 'route': route}, program=code,
+                         outer=outer, inner=inner)
+        if total:
+            ctx.mark_nontrivial('|'.join((code, outer, inner, route)))
+        ctx.outcome('sub:%d' % min(total, 3))
+    return body
+
+
 def bounds(tier):
     return {'programs': 'all sequences of <=2 statements over %d statements (second from the first %d)' % (len(STM), 14 if tier == 'quick' else len(STM)),
-            'patterns': len(PATS), 'mutations': 'identifier/literal/operator/comparison -> absent, on whole/statement/rename/'
+            'patterns': len(PATS), 'sub_matches': '%d programs (<=2 statements) x %d outer x %d inner patterns x 3 routes' % (len(SUB_PROG), len(SUB_OUTER), len(SUB_INNER)),
+            'mutations': 'identifier/literal/operator/comparison -> absent, on whole/statement/rename/'
                                                  'wildcard/drop derivations'}
 
 
@@ -227,6 +312,8 @@ def phases(tier):
                 describe='program x derived patterns mutated by one concrete edit (must not match)'),
           Phase('ordered-multi', make_ordered(4 if tier == 'quick' else 5), setup=_setup, chunk=400,
                 describe='3-statement patterns with shared placeholders x programs of <=4/5 similar statements')]
+    ph.append(Phase('sub-matches', make_submatch(), setup=_setup, chunk=400,
+                    describe='pattern matched below a node bound by an earlier match / continued with use_previous'))
     if tier == 'thorough':
         ph.append(Phase('alphabet-3', make_alphabet(STM, 3, 10), setup=_setup, chunk=400,
                         describe='programs of 3 statements (2nd/3rd from the first 10) x pattern alphabet'))
